@@ -108,7 +108,7 @@ var c14Status = []string{"101 Switching Protocols", "200 OK", "100 Continue", "3
 var c14ReplyUpg = [][]string{{"websocket"}, {"WebSocket"}, {"h2c, websocket"}, {"h2c", "websocket"}, nil, {"websockets"}, {"xwebsocket"}, {"web socket"}, {"websocket", "WebSocket"}, {"upgrade"}}
 var c14ReplyConn = [][]string{{"Upgrade"}, {"upgrade"}, {"keep-alive, Upgrade"}, {"keep-alive", "Upgrade"}, nil, {"upgrades"}, {"close"}, {"Upgrade", "upgrade"}, {"websocket"}}
 var c14Accept = []string{"correct", "constant-key", "altered-case", "truncated", "spaces", "absent", "empty", "key-itself", "wrong-guid"}
-var c14Bodies = []int{0, 1, 1024, 1025, 5000}
+var c14Bodies = []int{0, 1, 1024, 1025, 5000, -5000} // negative: chunked transfer coding
 
 func c14Scenarios(tier string) []*explore.Scenario {
 	bound := 2
@@ -216,12 +216,26 @@ func c14Body(x *explore.Ctx, ui int) {
 				fmt.Fprintf(&b, "Sec-WebSocket-Extensions: permessage-deflate; server_no_context_takeover; client_no_context_takeover\r\n")
 			}
 			fmt.Fprintf(&b, "X-Reply: yes\r\n")
-			if !strings.HasPrefix(status, "101") && !strings.HasPrefix(status, "100") {
+			hasBody := !strings.HasPrefix(status, "101") && !strings.HasPrefix(status, "100")
+			if strings.HasPrefix(status, "301") {
+				fmt.Fprintf(&b, "Location: ws://elsewhere.example/\r\n")
+			}
+			if hasBody && body >= 0 {
 				fmt.Fprintf(&b, "Content-Length: %d\r\n", body)
+			} else if hasBody {
+				fmt.Fprintf(&b, "Transfer-Encoding: chunked\r\n")
 			}
 			b.WriteString("\r\n")
-			if !strings.HasPrefix(status, "101") && !strings.HasPrefix(status, "100") {
+			if hasBody && body >= 0 {
 				b.Write(Pattern(4, body))
+			} else if hasBody {
+				p := Pattern(4, -body)
+				for len(p) > 0 {
+					k := min(len(p), 700)
+					fmt.Fprintf(&b, "%x\r\n%s\r\n", k, p[:k])
+					p = p[k:]
+				}
+				b.WriteString("0\r\n\r\n")
 			}
 			d.reply = b.Bytes()
 			if garbage == 3 {
@@ -361,7 +375,7 @@ func c14Body(x *explore.Ctx, ui int) {
 			x.Check(d.resp.Header.Get("X-Reply") == "yes", key("bad-reply-response-headers"), "response headers lost: %v", d.resp.Header)
 			if !statusOK && !strings.HasPrefix(status, "100") {
 				got, _ := io.ReadAll(d.resp.Body)
-				wantBody := Pattern(4, body)
+				wantBody := Pattern(4, max(body, -body))
 				if len(wantBody) > 1024 {
 					wantBody = wantBody[:1024]
 				}
